@@ -561,7 +561,7 @@ pub fn c03_strategy() -> BoxedStrategy<SchedCase> {
 pub fn run_c05(ctx: &Ctx) {
     ctx.rule(
         "cases = (config with multithread, >= 3-frame input (a tenth: empty or 1..15-sample inputs), workers in {1..8, None}, FLACENC_WORKERS in {unset, 1..8, '0', '', 'abc', '-1', ' 2', 2^70, '00'}, schedule = (strategy uniform | PCT | starve-the-hashing-thread | starve-the-feeder | starve-the-workers, choice bytes, seed); a fifth of the cases read from a packet source (short reads in mid-stream); a quarter of the cases have 17..=45 frames (more than the hashing queue and the frame buffers hold)); \
-         every case runs in an executor process under the schedule-owning scheduler (a further family uses real OS threads with 34..90 small blocks and 8..32 workers, optionally with the hashing thread / the feeder / the workers slowed down at their hook points, for code paths that pass no hook point); oracle: bytes(multi under schedule) == bytes(single) == bytes(frame-by-frame assembly) == bytes(multi under a second schedule), no dead-lock, no panic, no thread alive at return; \
+         every case runs in an executor process under the schedule-owning scheduler (a further family uses real OS threads with 34..90 small blocks and 8..32 workers, optionally with the hashing thread / the feeder / the workers slowed down at their hook points, for code paths that pass no hook point; and a grid of 127..4100-frame streams (thorough: up to 70000) whose frame numbers take 2..4 bytes); oracle: bytes(multi under schedule) == bytes(single) == bytes(frame-by-frame assembly) == bytes(multi under a second schedule), no dead-lock, no panic, no thread alive at return; \
          non-trivial = result pushes out of frame order, or a worker popped a buffer while the feeder was blocked on the refill queue, or a real-thread run with more than 16 blocks",
     );
     ctx.assume("only hook points are scheduling points: par.rs shares state only through the channels, mutexes and Arcs the hook sees; interleavings inside crossbeam/std and weak-memory effects are not explored");
@@ -569,6 +569,31 @@ pub fn run_c05(ctx: &Ctx) {
     let per = ctx.tier.scale(150, 12);
     ctx.search("sched", 12, per, &c05_strategy, check);
     ctx.search("real-threads-many-blocks", 6, per / 2, &|| real_threads_strategy("c05"), check);
+    // thousands of frames: frame numbers that need 2, 3 (and in the thorough tier 4) bytes in the header coding,
+    // with the largest frames at the end, the beginning, or nowhere in particular
+    let big: Vec<SchedCase> = super::common::many_frames_cases(ctx.tier == Tier::Thorough)
+        .into_iter()
+        .filter(|c| c.entry == super::common::Entry::Multi)
+        .enumerate()
+        .map(|(i, c)| SchedCase {
+            purpose: "c05".into(),
+            cfg: { let mut k = c.cfg.clone(); k.workers = Some(2 + i % 5); k },
+            inp: c.inp,
+            src: if i % 2 == 0 { SrcKind::Int } else { SrcKind::Bytes },
+            fill_empty_at_end: i % 4 < 2,
+            faults: vec![],
+            env: None,
+            strategy: [9u8, 10, 11, 12][i % 4],
+            pct_depth: 0,
+            choices: vec![],
+            sched_seed: crate::util::mix(ctx.seed, i as u64),
+            sched_seed2: 1,
+            packet: 0,
+            len_hint: i % 3 != 0,
+        })
+        .collect();
+    let nb = big.len() as u64;
+    ctx.enumerate("real-threads-thousands-of-frames", 6, nb, |i| big[i as usize].clone(), check);
     if ctx.tier == Tier::Thorough {
         real_thread_layer(ctx, "c05");
     }
